@@ -131,6 +131,34 @@ pub fn expand_tokens(
     })
 }
 
+/// Replace the shorthand classes `\w`, `\s`, `\d` (and their negations) by explicit ASCII
+/// classes. The pattern is scanned escape by escape, so that the `w` after an escaped backslash
+/// (`\\w`) is left alone.
+fn expand_shorthand_classes(pattern: &str) -> String {
+    let mut result = String::with_capacity(pattern.len());
+    let mut chars = pattern.chars();
+    while let Some(c) = chars.next() {
+        if c != '\\' {
+            result.push(c);
+            continue;
+        }
+        match chars.next() {
+            Some('w') => result.push_str(r"[0-9A-Za-z_]"),
+            Some('s') => result.push_str(r"[\t-\r ]"),
+            Some('d') => result.push_str(r"[0-9]"),
+            Some('W') => result.push_str(r"[^0-9A-Za-z_]"),
+            Some('S') => result.push_str(r"[^\t-\r ]"),
+            Some('D') => result.push_str(r"[^0-9]"),
+            Some(escaped) => {
+                result.push('\\');
+                result.push(escaped);
+            }
+            None => result.push('\\'),
+        }
+    }
+    result
+}
+
 fn build_separator(pool: &mut RulePool, separator_roots: &[RuleId]) -> RuleId {
     let blank = pool.push_node(Rule::Blank);
     if separator_roots.is_empty() {
@@ -219,14 +247,7 @@ impl NfaBuilder {
                 // character sets they should represent. If the full unicode range
                 // of `\w`, `\s` or `\d` are needed then `\p{L}`, `\p{Z}` and `\p{N}` should be
                 // used.
-                let s = pool
-                    .resolve(s)
-                    .replace(r"\w", r"[0-9A-Za-z_]")
-                    .replace(r"\s", r"[\t-\r ]")
-                    .replace(r"\d", r"[0-9]")
-                    .replace(r"\W", r"[^0-9A-Za-z_]")
-                    .replace(r"\S", r"[^\t-\r ]")
-                    .replace(r"\D", r"[^0-9]");
+                let s = expand_shorthand_classes(pool.resolve(s));
                 // Parse WITHOUT case folding and fold ourselves (see
                 // `case_fold_ascii_safe`). Letting `regex_syntax` fold would pull the
                 // long s `ſ` and Kelvin sign `K` into ASCII `s`/`k`.
